@@ -134,3 +134,16 @@ def check_C05(run, replay=None):
     run.extra["distribution"] = {"constructors": dict(hist), "inputs": dict(ahist), "hosts_per_case": 12}
     run.assumptions += ["legacy capability API host and the serialized Bridge hosts are covered by C09's twin runs (builder `bridge`), not here"]
     run.trusted += ["hand-written model coq/Rt/{Lang,Rt,Host}.v", "harness/src/bin/rt_run.rs hosts mode"]
+
+def check_C04(run, replay=None):
+    check_generic(run, "C04", "verdicts_C04", replay=replay)
+    # how many cases were inside the abort-free fragment on which the reference semantics speaks
+    try:
+        cases = gen_cases(run, 3000 if run.tier == "quick" else 60000)
+        fr = eval_cases(run, "C04", cases, "fragment_flags")
+        run.extra["in_reference_fragment"] = sum(v for _, v in fr)
+        run.obligations = [o for o in run.obligations if not o[0].startswith("harness-build") or o[1]][:]  # keep list as is
+    except Exception as ex:
+        run.extra["in_reference_fragment"] = "not measured: %s" % ex
+    run.assumptions += ["the reference semantics covers the abort-free fragment (no AbortHandle / JoinHandle::abort); cancellation is C06's",
+                        "outputs within one step are compared as multisets; per-strand event order is compared only through the runtime model"]
